@@ -29,6 +29,7 @@ type hnode struct {
 	typ       el.NodeType
 	closeErr  bool
 	reopenErr bool
+	w         *world
 	failOnce  bool // the injected Reopen failure happens on the first call of the probe only (a retry would succeed)
 	wrapped   bool
 	bypassed  int
@@ -92,6 +93,9 @@ func (n *hnode) Reopen() error {
 }
 
 func (n *hnode) reopenCounted() error {
+	if n.w != nil {
+		n.w.fireOnReopen()
+	}
 	n.mu.Lock()
 	n.reopened++
 	fail := n.reopenErr
@@ -408,6 +412,19 @@ type world struct {
 	b    *el.Broker
 	objs map[int]*hnode
 	all  []*hnode
+	// during a "reopenrm" probe: run once, from inside the first node Reopen of the walk (re-entrant registry mutation)
+	onReopenMu sync.Mutex
+	onReopen   func()
+}
+
+func (w *world) fireOnReopen() {
+	w.onReopenMu.Lock()
+	f := w.onReopen
+	w.onReopen = nil
+	w.onReopenMu.Unlock()
+	if f != nil {
+		f()
+	}
 }
 
 func (w *world) observe(types []int, o *Obs) {
@@ -476,7 +493,7 @@ func (w *world) apply(op Op, closeFails map[int]bool) Obs {
 	}
 	switch op.K {
 	case "regnode":
-		h := &hnode{obj: op.Obj, typ: ntype(op.Ty), closeErr: closeFails[op.Obj]}
+		h := &hnode{obj: op.Obj, typ: ntype(op.Ty), closeErr: closeFails[op.Obj], w: w}
 		w.all = append(w.all, h)
 		before = append(before, 0)
 		var node el.Node = h
@@ -529,6 +546,29 @@ func (w *world) apply(op Op, closeFails map[int]bool) Obs {
 	case "thrs":
 		err := w.b.SetSuccessThresholdSinks(ety(op.Ety), int(op.V))
 		o.Ok, o.Err = err == nil, err != nil
+	case "reopenrm":
+		// Broker.Reopen during which the first node reached removes pipeline (Ety, Pid) from inside its Reopen
+		for _, h := range w.all {
+			h.mu.Lock()
+			h.reopened = 0
+			h.reopenErr = false
+			h.mu.Unlock()
+		}
+		w.onReopenMu.Lock()
+		w.onReopen = func() { _ = w.b.RemovePipeline(ety(op.Ety), pid(op.Pid)) }
+		w.onReopenMu.Unlock()
+		err := w.b.Reopen(ctx)
+		w.fireOnReopen() // nothing was reached: remove now, so that the model's registry and the implementation's agree
+		o.Ok = err == nil
+		o.Err = err != nil
+		for _, h := range w.all {
+			h.mu.Lock()
+			if h.reopened > 0 {
+				o.Reopened = append(o.Reopened, h.obj)
+			}
+			h.mu.Unlock()
+		}
+		sort.Ints(o.Reopened)
 	case "reopen":
 		ctx = callerCtx(ctx, op.Wrap, op.ID+op.Pid+op.Fail)
 		for _, h := range w.all {
@@ -657,6 +697,8 @@ func opLit(op Op) string {
 		return fmt.Sprintf("HOp (SetThr %s %s)", hc.N(op.Ety), hc.Z(op.V))
 	case "thrs":
 		return fmt.Sprintf("HOp (SetThrSinks %s %s)", hc.N(op.Ety), hc.Z(op.V))
+	case "reopenrm":
+		return fmt.Sprintf("HReopenRm %s %s", hc.N(op.Ety), hc.N(op.Pid))
 	case "reopen":
 		return fmt.Sprintf("HReopen %s", hc.N(op.Fail))
 	}
@@ -893,6 +935,9 @@ func genBFS(e *emitter, maxDepth, budget int, withReopen bool, seedOps []Op) (de
 					for f := 1; f <= nobj; f++ {
 						c.Ops = append(c.Ops, Op{K: "reopen", Fail: f}, Op{K: "reopen", Fail: f, V: 1})
 					}
+					// last, because the registry changes: Reopen while the first node reached removes a pipeline from inside
+					// its Reopen (every pipeline that stays registered must still be reached), then a plain Reopen
+					c.Ops = append(c.Ops, Op{K: "reopenrm", Ety: 1, Pid: 1 + depth%2}, Op{K: "reopen"}, Op{K: "reopenrm", Ety: 2, Pid: 1}, Op{K: "reopen"})
 				}
 				obs := e.emit(c)
 				if obs == nil {
@@ -978,7 +1023,11 @@ func genRandom(e *emitter, r *hc.Rand, n, maxLen int) {
 				if nobj > 0 && r.Bool() {
 					f = 1 + r.Intn(nobj)
 				}
-				ops = append(ops, Op{K: "reopen", Fail: f, Wrap: r.Intn(2), V: int64(r.Intn(3) / 2)})
+				if r.Intn(4) == 0 {
+					ops = append(ops, Op{K: "reopenrm", Ety: 1 + r.Intn(2), Pid: 1 + r.Intn(3)})
+				} else {
+					ops = append(ops, Op{K: "reopen", Fail: f, Wrap: r.Intn(2), V: int64(r.Intn(3) / 2)})
+				}
 			}
 		}
 		ops = numberObjs(ops)
@@ -1005,6 +1054,10 @@ func genPolicy(e *emitter, maxLen int) {
 				for i, p := range seq {
 					if removeAt == i && i > 0 {
 						ops = append(ops, Op{K: "rmnode", ID: 1})
+					}
+					if removeAt < 0 && i > 0 {
+						// removals of OTHER (unregistered) ids and of a node in use reset nothing
+						ops = append(ops, Op{K: "rmnode", ID: 9}, Op{K: "rmpipe", Pid: 9, Ety: 1}, Op{K: "rpan", Pid: 9, Ety: 1}, Op{K: "rmnode", ID: 1})
 					}
 					ops = append(ops, Op{K: "regnode", ID: 1, Ty: 1, Pol: p})
 					if i == 0 {
@@ -1034,6 +1087,11 @@ func genPolicy(e *emitter, maxLen int) {
 							if rmKind == "rpan" {
 								ops = append(ops, Op{K: "regnode", ID: 1, Ty: 1}, Op{K: "regnode", ID: 2, Ty: 2}, Op{K: "regnode", ID: 3, Ty: 3}, Op{K: "regnode", ID: 4, Ty: 3})
 							}
+						}
+						if removeAt < 0 && i > 0 {
+							// removals of OTHER ids (unregistered pipeline, the same id under a type without it, an unregistered
+							// node) reset nothing: the policy of (t1,p1) stays
+							ops = append(ops, Op{K: "rmpipe", Pid: 9, Ety: 1}, Op{K: "rpan", Pid: 9, Ety: 1}, Op{K: "rmpipe", Pid: 1, Ety: 3}, Op{K: "rmnode", ID: 9})
 						}
 						ops = append(ops, Op{K: "regpipe", Pid: 1, Ety: 1, IDs: menu[i%3], Pol: p})
 						if i == 0 {
@@ -1169,9 +1227,30 @@ func genRebind(e *emitter) {
 				if again {
 					ops = append(ops, Op{K: "regpipe", Pid: 1, Ety: 1, IDs: ids, Pol: []int{0, 2}[pos%2]})
 				}
-				ops = append(ops, Op{K: "reopen"}, Op{K: "reopen", Fail: 5}, Op{K: "reopen", Fail: ids[pos]}, Op{K: "reopen", Fail: 5, V: 1}, Op{K: "rpan", Pid: 1, Ety: 1}, Op{K: "reopen"})
+				ops = append(ops, Op{K: "reopen"}, Op{K: "reopen", Fail: 5}, Op{K: "reopen", Fail: ids[pos]}, Op{K: "reopen", Fail: 5, V: 1}, Op{K: "reopenrm", Ety: 2, Pid: 2}, Op{K: "reopen"}, Op{K: "rpan", Pid: 1, Ety: 1}, Op{K: "reopen"})
 				e.emit(Case{Gen: "rebind", Types: []int{1, 2}, Ops: numberObjs(ops)})
 			}
+		}
+	}
+}
+
+// Reopen while a node removes a pipeline from inside its Reopen: four pipelines of one type (plus one of another), each of
+// them (and an unregistered one) as the victim; whatever the walking order, the pipelines that stay must be reached
+func genReopenRm(e *emitter) {
+	for victim := 1; victim <= 5; victim++ {
+		for _, shared := range []bool{false, true} {
+			ops := []Op{{K: "regnode", ID: 1, Ty: 1}, {K: "regnode", ID: 2, Ty: 2}, {K: "regnode", ID: 3, Ty: 3}, {K: "regnode", ID: 4, Ty: 3},
+				{K: "regnode", ID: 5, Ty: 2}, {K: "regnode", ID: 6, Ty: 3}, {K: "regnode", ID: 7, Ty: 2}, {K: "regnode", ID: 8, Ty: 3}}
+			defs := [][]int{{2, 3}, {1, 2, 4}, {5, 6}, {7, 8}}
+			if shared {
+				defs = [][]int{{2, 3}, {1, 2, 3}, {2, 4}, {1, 2, 4}}
+			}
+			for i, d := range defs {
+				ops = append(ops, Op{K: "regpipe", Pid: i + 1, Ety: 1, IDs: d})
+			}
+			ops = append(ops, Op{K: "regpipe", Pid: 1, Ety: 2, IDs: defs[0]},
+				Op{K: "reopen"}, Op{K: "reopenrm", Ety: 1, Pid: victim}, Op{K: "reopen"}, Op{K: "reopenrm", Ety: 2, Pid: 1}, Op{K: "reopen"})
+			e.emit(Case{Gen: "reopenrm", Types: []int{1, 2}, Ops: numberObjs(ops)})
 		}
 	}
 }
@@ -1274,6 +1353,7 @@ func main() {
 			genRandom(e, r.Fork(), *nRandom, *randLen)
 		case "rebind":
 			genRebind(e)
+			genReopenRm(e)
 		case "policy":
 			genPolicy(e, *polLen)
 			summary["policy_exhaustive_len"] = *polLen
